@@ -369,15 +369,39 @@ func scaled(err, bound float64) int {
 
 func c15Rnd(v c15Vec, id int, dir string) []c15Obs {
 	r := rand.New(rand.NewSource(v.Seed*1000003 + int64(v.I)*13 + 5))
-	mag := r.Intn(5)
-	scale := []float64{1e-5, 1, 50, 1500, 2e5}[mag]
-	coord := func() float64 { return r.NormFloat64() * scale }
+	mag := r.Intn(7)
+	scale := []float64{1e-5, 1, 50, 1500, 2e5, 1e-10, 3e-12}[mag]
+	coord := func() float64 {
+		// now and then a signed zero or a value that underflows to one in float32: the same point may be
+		// supplied as +0 and as -0
+		switch r.Intn(14) {
+		case 0:
+			return 0
+		case 1:
+			return math.Copysign(0, -1)
+		case 2:
+			return 1e-60
+		case 3:
+			return -1e-60
+		}
+		return r.NormFloat64() * scale
+	}
 	var res []c15Obs
 	// ---- 3MF: triangles over a pool of points (shared vertices)
 	np := 3 + r.Intn(6)
 	pool := make([]v3.Vec, np)
 	for i := range pool {
 		pool[i] = v3.Vec{X: coord(), Y: coord(), Z: coord()}
+	}
+	if r.Intn(3) == 0 {
+		// the same point twice, once with +0 and once with -0 (or values that underflow to them)
+		i, j := r.Intn(np), r.Intn(np)
+		if i != j {
+			z := []float64{0, 1e-60}[r.Intn(2)]
+			pool[i].X, pool[j] = z, pool[i]
+			pool[j].X = -z
+			pool[i].X = z
+		}
 	}
 	nt := r.Intn(8)
 	var ts []*sdf.Triangle3
